@@ -313,6 +313,10 @@ def run(ctx: Ctx) -> RuleResult:
     sel_ = find_pat(lx.body_nodes(), '$l = self.lexers[$ps.position]', {'ps': psparam})
     ok = bool(sel_) and has_pat(lx.body_nodes(), '$l.next_token($$s, $ps)', {'l': sel_[0][1]['l'], 'ps': psparam}) and \
         any(isinstance(a, ast.While) for n, _ in sel_ for a in ancestors(n))
+    if not ok:
+        # the same without the temporary
+        direct = find_pat(lx.body_nodes(), '$me.lexers[$ps.position].next_token($$s, $ps)', {'ps': psparam})
+        ok = bool(direct) and any(isinstance(a, ast.While) for n, _ in direct for a in ancestors(n))
     res.ob('%s %s' % (lx.loc(), lx.qual), 'each token is lexed by the lexer of the parser\'s current state', ok)
     if not ok:
         res.finding(lx, lx.node, 'the contextual lexer does not pick the lexer by parser_state.position for every token', construct='ctx-select')
